@@ -9,7 +9,7 @@
 From PV Require Import Base.Prelude Base.Slice.
 From PV Require Import Model.ViewsBase Model.Views Model.Views2 Model.ViewsVar Model.DNSNbns Model.Parse Model.DNSRecords.
 From PV Require Import Model.NDPOptions Model.MiscHopByHop Model.MiscDecoders Model.HandlersLoop Model.HandlersDnsMsg Model.HandlersProc.
-From PV Require Import Proofs.Parse Proofs.HandlersGlue Proofs.HandlersGlue2 Proofs.HandlersDispatch.
+From PV Require Import Proofs.Parse Proofs.HandlersGlue Proofs.HandlersGlue2 Proofs.HandlersGlue3 Proofs.HandlersDispatch.
 Open Scope N_scope.
 
 (* ---------------------------------------------------------------- (1) *)
@@ -92,6 +92,57 @@ Theorem C08_glue_rs_options : forall lbl_ok p fuel, wf p -> (len p < fuel)%nat -
   tcls (rs_options lbl_ok fuel p) = tcls (RS_Options p).
 Proof. exact glue_rs_options. Qed.
 Print Assumptions C08_glue_rs_options.
+
+(* per-type ICMPv6 views, DHCP / ARP header getters: every access of the processor models is the
+   VIEWS getter of that field (same outcome for all slices) *)
+Theorem C08_glue_na_target_lla : forall p, cls (lla_option_at p 24 2) = cls (NA_TargetLLA p).
+Proof. exact glue_na_target_lla. Qed.
+Print Assumptions C08_glue_na_target_lla.
+
+Theorem C08_glue_ns_source_lla : forall p, cls (lla_option_at p 24 1) = cls (NS_SourceLLA p).
+Proof. exact glue_ns_source_lla. Qed.
+Print Assumptions C08_glue_ns_source_lla.
+
+Theorem C08_glue_redirect_target_lla : forall p,
+  cls (lla_option_at p 40 2) = cls (Redirect6_TargetLinkLayerAddr p).
+Proof. exact glue_redirect_target_lla. Qed.
+Print Assumptions C08_glue_redirect_target_lla.
+
+Theorem C08_glue_rs_source_lla : forall p, cls (lla_option_at p 8 1) = cls (RS_SourceLLA p).
+Proof. exact glue_rs_source_lla. Qed.
+Print Assumptions C08_glue_rs_source_lla.
+
+Theorem C08_glue_icmp6_gates : forall p,
+  NA_IsValid p = Ok (negb (Nat.ltb (len p) 24)) /\ NS_IsValid p = Ok (negb (Nat.ltb (len p) 24)) /\
+  RA_IsValid p = Ok (negb (Nat.ltb (len p) 16)) /\ Redirect6_IsValid p = Ok (negb (Nat.ltb (len p) 40)) /\
+  ICMP_IsValid p = Ok (negb (Nat.ltb (len p) 8)).
+Proof. exact glue_icmp6_gates. Qed.
+Print Assumptions C08_glue_icmp6_gates.
+
+Theorem C08_glue_icmp6_fields : forall p,
+  cls (sl p 8 (8 + 16)) = cls (NA_TargetAddress p) /\ cls (sl p 8 (8 + 16)) = cls (NS_TargetAddress p) /\
+  cls (sl p 8 24) = cls (Redirect6_TargetAddress p) /\ cls (sl p 24 40) = cls (Redirect6_DstAddress p) /\
+  cls (idx p 4) = cls (RA_CurrentHopLimit p) /\ cls (idx p 5) = cls (RA_Flags p) /\
+  cls (be16_at p 6) = cls (RA_Lifetime p) /\ cls (be32_at p 8) = cls (RA_ReachableTime p) /\
+  cls (be32_at p 12) = cls (RA_RetransmitTimer p) /\ cls (idx p 1) = cls (ICMP_Code p) /\
+  cls (idx p 0) = cls (ICMP_Type p).
+Proof. exact glue_icmp6_fields. Qed.
+Print Assumptions C08_glue_icmp6_fields.
+
+Theorem C08_glue_dhcp_fields : forall p,
+  cls (sl p 4 8) = cls (DHCP4_XId p) /\ cls (be16_at p 8) = cls (DHCP4_Secs p) /\
+  cls (be16_at p 10) = cls (DHCP4_Flags p) /\ cls (sl p 12 (12 + 4)) = cls (DHCP4_CIAddr p) /\
+  cls (sl p 16 (16 + 4)) = cls (DHCP4_YIAddr p) /\ cls (sl p 28 34) = cls (DHCP4_CHAddr p) /\
+  cls (idx p 0) = cls (DHCP4_OpCode p) /\ cls (idx p 2) = cls (DHCP4_HLen p).
+Proof. exact glue_dhcp_fields. Qed.
+Print Assumptions C08_glue_dhcp_fields.
+
+Theorem C08_glue_arp_fields : forall p,
+  cls (be16_at p 6) = cls (ARP_Operation p) /\ cls (sl p 8 14) = cls (ARP_SrcMAC p) /\
+  cls (sl p 14 (14 + 4)) = cls (ARP_SrcIP p) /\ cls (sl p 18 24) = cls (ARP_DstMAC p) /\
+  cls (sl p 24 (24 + 4)) = cls (ARP_DstIP p).
+Proof. exact glue_arp_fields. Qed.
+Print Assumptions C08_glue_arp_fields.
 
 (* ---------------------------------------------------------------- (2) DNS *)
 Theorem C08_glue_node_status_response : forall b,
